@@ -132,6 +132,16 @@ def run(c):
     obsf = os.path.join(c.work, "observed.ndjson")
     c.run([binp, "run", planf, obsf, str(c.seed), "12"], timeout=1500)
     obs = vlib.read_ndjson(obsf)
+    # requests the client under test could not even transmit (declared length and body disagree, three times in a row against
+    # a plain server): "a handler reads exactly the bytes the client was given" fails before any handler is reached
+    cfails = vlib.read_ndjson(obsf + ".clientfail") if os.path.exists(obsf + ".clientfail") else []
+    for cfl in cfails[:5]:
+        pl = next(p for p in plan if p["id"] == cfl["id"])
+        c.violation("clause RoundTrip violated: the client built by confighttp refuses to send a valid body (inconsistent request): %s" % cfl["what"],
+                    replay_obj=dict(plan=pl, observed=cfl, failed=["RoundTrip"]))
+    if cfails:
+        c.extra["client_inconsistent_requests"] = len(cfails)
+        plan = [p for p in plan if p["id"] not in {x["id"] for x in cfails}]
     if len(obs) != len(plan):
         raise vlib.Inconclusive("driver produced %d observations for %d planned requests" % (len(obs), len(plan)))
     c.log("driver ran %d concrete requests" % len(obs))
